@@ -49,6 +49,75 @@ func checkLinkage(r *simrt.Run, n *simnode.Node, k uint64) {
 	}
 }
 
+// c16WindowBoundary puts the node exactly 29..32 momentums past the fork point on one real branch and
+// delivers the other, longer, fully valid branch: it must be adopted up to depth 30 and refused beyond.
+func c16WindowBoundary(r *simrt.Run, w *nomsim.World, wl *nomsim.Workload, f *nomsim.Fork) {
+	t := r.T
+	T := f.XA
+	f.Common(2+t.Choose(6), true)
+	fork := f.ForkHeight
+	w.Net.Partition(f.SideA(), f.SideB())
+	w.Net.Gossip = false
+	for i := 0; i < 260 && (f.A.Height() < fork+34 || f.B.Height() < fork+34); i++ {
+		t.Span(func() {
+			if t.Choose(4) == 0 {
+				wl.Op(f.A)
+				wl.Op(f.B)
+			}
+			w.StepSlot()
+		})
+	}
+	if f.A.Height() < fork+34 || f.B.Height() < fork+34 {
+		r.Skip("branches-too-short-for-window-boundary")
+		return
+	}
+	if nomsim.CommonAncestor(f.A, f.B) != fork {
+		r.Skip("fork-point-moved")
+		return
+	}
+	own, other := f.A, f.B
+	if t.Bool() {
+		own, other = f.B, f.A
+	}
+	d := uint64(29 + t.Choose(4))
+	if T.Height() > fork {
+		r.Skip("observer-already-past-fork")
+		return
+	}
+	if idx, err := T.Bridge.InsertChain(own.Batch(fork+1, fork+d)); err != nil || idx != 0 {
+		r.Fail("honest-longer-chain-refused", "extension", "honest extension [%d..%d] refused: idx=%d err=%v", fork+1, fork+d, idx, err)
+	}
+	before := snapNode(T)
+	// the other branch: whole, or just one momentum longer than the node's chain
+	to := other.Height()
+	if t.Bool() {
+		to = fork + d + 1
+	}
+	batch := other.Batch(fork+1, to)
+	idx, err := T.Bridge.InsertChain(batch)
+	r.Fault(fmt.Sprintf("side-chain-at-window-boundary-depth-%d", d))
+	r.Logf("window boundary: node at fork+%d, side chain [%d..%d] -> idx=%d err=%v, node now %d", d, fork+1, to, idx, err, T.Height())
+	if d <= 30 {
+		if err != nil || idx != 0 || T.Frontier().Hash != batch[len(batch)-1].Momentum.Hash {
+			r.Fail("honest-longer-chain-refused", "side-chain", "an honest, strictly longer side chain (fork depth %d, tail %d vs frontier %d) was refused: idx=%d err=%v", d, to, fork+d, idx, err)
+		}
+		ref := freshFollower(r, w, "R", T, 64)
+		compareNodes(r, "reorged-node-differs-from-fresh", ref, T, nil)
+	} else {
+		if T.Frontier().Hash != before.hash {
+			r.Fail("adopt-rule", fmt.Sprintf("adopted-depth%s-longer%v", bucket(int(d)), true), "node at %d left its chain for a side chain with tail %d linking %d below its frontier", fork+d, to, d)
+		}
+		after := snapNode(T)
+		if after.digest != before.digest {
+			r.Fail("state-changed", "side-chain-refused", "a refused side chain changed the node: %s", oracle.Diff(before.dump, after.dump))
+		}
+	}
+	checkLinkage(r, T, 45)
+	r.NonTrivial = true
+	r.Finger = fmt.Sprintf("wb-%d-%s", d, T.Frontier().Hash.String()[:16])
+	r.Sample["window_boundary_depth"] = d
+}
+
 func runC16(r *simrt.Run) {
 	t := r.T
 	mode := nomsim.SporkMode(t.Choose(3))
@@ -58,6 +127,10 @@ func runC16(r *simrt.Run) {
 	wl.MaxOps = 1 + t.Choose(4)
 	f := nomsim.NewFork(w, wl, t.Choose(6), true, false)
 	T := f.XA // the node under test follows side A
+	if t.Choose(6) == 0 {
+		c16WindowBoundary(r, w, wl, f)
+		return
+	}
 	f.Common(3+t.Choose(20), true)
 	f.Split(2+t.Choose(44), true, true)
 	w.Net.Heal()
